@@ -148,10 +148,11 @@ def streams(ctx):
     c05._sync_types()
     pool = B.encode_all([B.gen_device(rng) for _ in range(60)])
     wk = BH.default_ports()
-    if len(wk) == 4 and all(BH.bindable(p) for p in wk):
-        ctx.run_cases(SEQ, "bridge-on-the-well-known-ports", wellknown_sequences(rng, pool, ctx.n(12, 120)), exhaustive=False, sample_every=5)
-    else:
-        ctx.notes.append(f"well-known broadcast ports {wk} are not all free in this sandbox: that stream was skipped")
+    with BH.WellKnownPorts() as mine:       # one check at a time on this machine uses the protocol's well-known ports
+        if mine and len(wk) == 4 and all(BH.bindable(p) for p in wk):
+            ctx.run_cases(SEQ, "bridge-on-the-well-known-ports", wellknown_sequences(rng, pool, ctx.n(12, 120)), exhaustive=False, sample_every=5)
+        else:
+            ctx.notes.append(f"well-known broadcast ports {wk} are not all free in this sandbox: that stream was skipped")
     ctx.run_cases(SEQ, "sequences-on-a-running-bridge", [gen_sequence(rng, pool) for _ in range(ctx.n(150, 3000))], exhaustive=False,
                   sample_every=70)
     ctx.run_cases(SEQ, "sequences-on-a-bridge-that-was-stopped-and-started-again",
